@@ -17,6 +17,8 @@ mutual
     | .attribute o _ => cleanB o
     | .subscript o i => cleanB o && cleanB i
     | .call f as ks => (cleanB f && cleanBL as) || !isGlue (.call f as ks)
+    | .ifExp c a b => cleanB c && cleanB a && cleanB b
+    | .boolOp op [a, b] => cleanB a && cleanB b
     | e => !isGlue e
   def cleanBL : List Expr → Bool
     | [] => true
@@ -48,10 +50,17 @@ mutual
     | .starred _, h => .other _ (by simpa [cleanB] using h)
     | .slice .., h => .other _ (by simpa [cleanB] using h)
     | .binOp .., h => .other _ (by simpa [cleanB] using h)
-    | .boolOp .., h => .other _ (by simpa [cleanB] using h)
+    | .boolOp op [a, b], h => by
+        simp only [cleanB, Bool.and_eq_true] at h
+        exact .boolOp2 op a b (cleanB_sound a h.1) (cleanB_sound b h.2)
+    | .boolOp op [], h => .other _ (by simpa [cleanB] using h)
+    | .boolOp op [_], h => .other _ (by simpa [cleanB] using h)
+    | .boolOp op (_ :: _ :: _ :: _), h => .other _ (by simpa [cleanB] using h)
     | .unaryOp .., h => .other _ (by simpa [cleanB] using h)
     | .compare .., h => .other _ (by simpa [cleanB] using h)
-    | .ifExp .., h => .other _ (by simpa [cleanB] using h)
+    | .ifExp c a b, h => by
+        simp only [cleanB, Bool.and_eq_true] at h
+        exact .ifExp c a b (cleanB_sound c h.1.1) (cleanB_sound a h.1.2) (cleanB_sound b h.2)
     | .lambda .., h => .other _ (by simpa [cleanB] using h)
     | .listComp .., h => .other _ (by simpa [cleanB] using h)
     | .setComp .., h => .other _ (by simpa [cleanB] using h)
@@ -93,30 +102,64 @@ theorem simpleTB_sound (t : Expr) (h : simpleTB t = true) : SimpleT t := by
   · exact .attr _ _ (cleanB_sound _ h)
   · exact .sub _ _ (cleanB_sound _ h.1.1) (cleanB_sound _ h.1.2) (plainIndexB_sound _ h.2)
 
-def simpleSB : Stmt → Bool
-  | .expr e => cleanB e
-  | .pass_ => true
-  | .global_ _ => true
-  | .assign ts value => !ts.isEmpty && ts.all simpleTB && cleanB value
-  | .augAssign t _ value => simpleTB t && cleanB value
-  | _ => false
+mutual
+  def simpleSB : Stmt → Bool
+    | .expr e => cleanB e
+    | .pass_ => true
+    | .global_ _ => true
+    | .assign ts value => !ts.isEmpty && ts.all simpleTB && cleanB value
+    | .augAssign t _ value => simpleTB t && cleanB value
+    | .if_ test body orelse => cleanB test && simpleLB body && simpleLB orelse
+    | _ => false
+  def simpleLB : List Stmt → Bool
+    | [] => true
+    | s :: ss => simpleSB s && simpleLB ss
+end
 
-theorem simpleSB_sound (s : Stmt) (h : simpleSB s = true) : SimpleS s := by
-  cases s <;> simp only [simpleSB, Bool.and_eq_true, Bool.false_eq_true] at h
-  · exact .expr _ (cleanB_sound _ h)
-  · exact .pass
-  · rename_i ts value
-    refine .assign ts value ?_ ?_ (cleanB_sound _ h.2)
-    · intro he; simp [he] at h
-    · intro t ht
-      exact simpleTB_sound t (List.all_eq_true.mp h.1.2 t ht)
-  · exact .aug _ _ _ (simpleTB_sound _ h.1) (cleanB_sound _ h.2)
-  · exact .global_ _
+mutual
+  theorem simpleSB_sound : ∀ (s : Stmt), simpleSB s = true → SimpleS s
+    | .expr e, h => .expr _ (cleanB_sound _ (by simpa [simpleSB] using h))
+    | .pass_, _ => .pass
+    | .global_ _, _ => .global_ _
+    | .assign ts value, h => by
+        simp only [simpleSB, Bool.and_eq_true] at h
+        refine .assign ts value ?_ ?_ (cleanB_sound _ h.2)
+        · intro he; simp [he] at h
+        · intro t ht
+          exact simpleTB_sound t (List.all_eq_true.mp h.1.2 t ht)
+    | .augAssign t _ value, h => by
+        simp only [simpleSB, Bool.and_eq_true] at h
+        exact .aug _ _ _ (simpleTB_sound _ h.1) (cleanB_sound _ h.2)
+    | .if_ test body orelse, h => by
+        simp only [simpleSB, Bool.and_eq_true] at h
+        exact .if_ test body orelse (cleanB_sound _ h.1.1) (simpleLB_sound body h.1.2) (simpleLB_sound orelse h.2)
+    | .while_ .., h => by simp [simpleSB] at h
+    | .for_ .., h => by simp [simpleSB] at h
+    | .break_, h => by simp [simpleSB] at h
+    | .continue_, h => by simp [simpleSB] at h
+    | .annAssign .., h => by simp [simpleSB] at h
+    | .functionDef .., h => by simp [simpleSB] at h
+    | .return_ _, h => by simp [simpleSB] at h
+    | .nonlocal_ _, h => by simp [simpleSB] at h
+    | .classDef .., h => by simp [simpleSB] at h
+    | .import_ _, h => by simp [simpleSB] at h
+    | .importFrom .., h => by simp [simpleSB] at h
+    | .other .., h => by simp [simpleSB] at h
+  theorem simpleLB_sound : ∀ (ss : List Stmt), simpleLB ss = true → ∀ s ∈ ss, SimpleS s
+    | [], _ => by intro s hs; cases hs
+    | s :: ss, h => by
+        simp only [simpleLB, Bool.and_eq_true] at h
+        intro x hx
+        simp only [List.mem_cons] at hx
+        rcases hx with hx | hx
+        · rw [hx]; exact simpleSB_sound s h.1
+        · exact simpleLB_sound ss h.2 x hx
+end
 
 /-- the whole module falls under `C01.module_straightline_semantics` -/
-def simpleModuleB (body : List Stmt) : Bool := body.all simpleSB
+def simpleModuleB (body : List Stmt) : Bool := simpleLB body
 
 theorem simpleModuleB_sound (body : List Stmt) (h : simpleModuleB body = true) : ∀ s ∈ body, SimpleS s :=
-  fun s hs => simpleSB_sound s (List.all_eq_true.mp h s hs)
+  simpleLB_sound body h
 
 end OlVerif.Sem
